@@ -77,11 +77,24 @@ macro_rules! run_ctor {
                     p.weighted_data().ncols(),
                     p.weighted_data().iter().copied(),
                 );
+                // the state exposed right after build(): are all linear coefficients exactly zero
+                // (every singular value at or below the threshold) ?
+                let cz = match p.linear_coefficients() {
+                    Some(c) => {
+                        if c.iter().all(|v| *v == <$T as Sc>::of(0.0)) {
+                            "1"
+                        } else {
+                            "0"
+                        }
+                    }
+                    None => "none",
+                };
                 format!(
-                    "impl ok eps {} yw {} w {}",
+                    "impl ok eps {} yw {} w {}\npost cz={}",
                     hex(eps),
                     mat_str(&yw),
-                    weights_str(p.weights())
+                    weights_str(p.weights()),
+                    cz
                 )
             }
             Err(e) => format!("impl err {}", canon_builder_err(&format!("{:?}", e))),
@@ -160,7 +173,9 @@ pub fn stream(out: &mut Out, seed: u64, thorough: bool) {
         ctors.push("newpar");
         ctors.push("mrhspar");
     }
-    let eps_opts: [Option<f64>; 4] = [None, Some(0.5), Some(-0.25), Some(0.0)];
+    // (2.0 / -4.0 lie above the only singular value |w| of the constant basis column for most
+    // weights: the coefficients exposed right after build() must already be truncated)
+    let eps_opts: [Option<f64>; 6] = [None, Some(0.5), Some(-0.25), Some(0.0), Some(2.0), Some(-4.0)];
     let reps = if thorough { 6 } else { 1 };
     for ctor in ctors.iter() {
         let mrhs = ctor.starts_with("mrhs");
